@@ -941,6 +941,31 @@ def sym_is_not(a, b):
     return sym_is(a, b, negate=True)
 
 
+def sym_contains(x, y, negate=False):
+    """`x in y` for hash-based containers that may hold proxies (or be asked about one): the hash of a proxy is a
+    constant in rule code, so membership is decided by equality with every element, as Python does among elements
+    with equal hashes."""
+    if _isinstance(y, (set, frozenset, dict)) and (is_sym(x) or builtins.any(is_sym(k) for k in y)):
+        hash(x)  # an unhashable element raises TypeError exactly as `in` does
+        r = False
+        for k in y:
+            eq = (k == x)
+            if eq is True:
+                r = True
+                break
+            if is_sym(eq):
+                r = eq if r is False else SymBool(z3.Or(term(r), term(eq)))
+    else:
+        r = x in y
+    if negate:
+        return (not r) if _isinstance(r, bool) else SymBool(z3.Not(r.e))
+    return r
+
+
+def sym_not_contains(x, y):
+    return sym_contains(x, y, negate=True)
+
+
 def sym_len(x):
     return builtins.len(x)
 
